@@ -94,7 +94,8 @@ def scenario(name, p, workdir: Path, rank: int):
     prog = bool(p.get("progress", False))        # progress display wraps the parallel iterators on every rank
     ncent = p.get("ncent", 3)
     edges = p.get("edges", [0.1, 0.4, 0.7, 1.0])
-    conf = Configuration.create(rmin=0.005, rmax=0.08, unit="rad", edges=edges)
+    closed = p.get("closed", "right")     # the non-default side has to survive every transport between ranks
+    conf = Configuration.create(rmin=0.005, rmax=0.08, unit="rad", edges=edges, closed=closed)
     if name == "create":
         df = frame(p["n"], p["seed"], ncent, with_patch=p["mode"] == "ids")
         if p.get("source"):          # from a file written by the harness before the world started (root reads, others get chunks)
@@ -110,7 +111,7 @@ def scenario(name, p, workdir: Path, rank: int):
         return cat_summary(cat)
     if name == "trees":
         cat = Catalog(workdir / "pre_d", max_workers=mw)
-        cat.build_trees(edges, closed="right", force=True, max_workers=mw, progress=prog)
+        cat.build_trees(edges, closed=closed, force=True, max_workers=mw, progress=prog)
         out = []
         if rank == 0:
             import pickle
